@@ -80,7 +80,8 @@ typedef struct proc {
     uint64_t call_evseq; uint64_t rel_evseq[MAXRES];
 } proc;
 
-typedef struct { uint64_t handle; bool pending, executed, cancelled; double time; double done_time; int64_t prio; } hevent;
+typedef struct { uint64_t handle; bool pending, executed, cancelled, subj_is_proc; double time; double done_time; int64_t prio; } hevent;
+void hev_check_vanished(int e);
 
 typedef struct { int kind; int a; int64_t b; int cond; } predspec;   /* C13 predicate */
 enum { PR_FALSE = 0, PR_VAR_GE, PR_RES_FREE, PR_POOL_AVAIL_GE, PR_BUF_LEVEL_GE, PR_TRUE, PR_OQ_LEN_GE, PR_BUF_SPACE_GE, PR_NKINDS };
